@@ -166,13 +166,8 @@ def run_case(case):
     # 1. rename (changes alphabetical order)
     pool = [f"n{rng.randrange(100):02d}_{i}" for i in range(len(names))]
     if rng.random() < 0.4:
-        # names that are prefixes of each other (g, g_act, g_act_1, ...)
-        pool = ["g"]
-        while len(pool) < len(names):
-            cand = rng.choice(pool) + "_" + rng.choice(["act", "1", "x", "p", "in"])
-            if cand not in pool:
-                pool.append(cand)
-        rng.shuffle(pool)
+        # names that are prefixes of each other or contain the fragments of the Petri-net identifiers
+        pool = common.tricky_names(rng, len(names))
     ren = dict(zip(names, pool))
     txt = case["bnet"]
     def rename_text(text, mapping):
